@@ -110,10 +110,19 @@ func VerifRun_C15() {
 		src += "local w1 = 1 -- note\n"
 		line++
 	}
-	src += "---@type " + typ + "\n"
-	line++
-	src += "local v = {}\n"
-	line++
+	// the variable may be the second of a declaration whose ---@type line lists one type per variable
+	if form == 0 && nc > 1 && verifBool("secondVariable") {
+		other := c15names[(target+1)%nc]
+		src += "---@type " + other + ", " + typ + "\n"
+		line++
+		src += "local u, v = {}, {}\n"
+		line++
+	} else {
+		src += "---@type " + typ + "\n"
+		line++
+		src += "local v = {}\n"
+		line++
+	}
 	useLine := line
 	src += "q = " + use + "\n"
 	line++
